@@ -3,11 +3,15 @@
   Only property theorems and non-vacuity examples live here; the lemmas are in Lemmas/RangeCoder*.lean.
 -/
 import XzVerif.Lemmas.RangeCoderAdaptive
+import XzVerif.Lemmas.LzmaChunk
 import XzVerif.Model.Lzma2Enc
+import XzVerif.Model.Lzma2
+import XzVerif.Model.MfPos
 import XzVerif.Gen.C01
 
 namespace XzVerif.C01
 open XzVerif.RangeDec XzVerif.RangeEnc XzVerif.RangeCoder XzVerif.Lzma XzVerif.LzmaEnc XzVerif.Lzma2Enc
+open XzVerif.LzmaSymDec XzVerif.LzmaSpec XzVerif.LzmaSym XzVerif.MfPos
 
 /-! ### bridges to the regenerated source (Gen/C01.lean is rewritten from /repo on every run) -/
 
@@ -107,6 +111,126 @@ theorem rc_flush_exact (e : Enc) (h : Inv e) :
     numLE (encFlush e).outRev = V (normalize e) ∧ (encFlush e).outRev.length = T (normalize e) + 4 :=
   ⟨(encFlush_spec h).1, (encFlush_spec h).2.1⟩
 
+
+/-! ### symbol coder, LZMA1 streams, LZMA2 chunks -/
+
+/-- The parser's contract is, by definition, that the LZ77 expansion of the symbols over the history is the data. -/
+theorem expand_of_describes (dictSize : Nat) (hist data : List UInt8) (s : SymSt) (syms : List Sym)
+    (h : Describes dictSize hist s syms data) :
+    (lzExpand dictSize syms s hist.reverse).map (fun rb => (rb.reverse).drop hist.length) = some data := by
+  unfold Describes at h
+  rw [h]; simp [List.reverse_append]
+
+/-- One symbol: the specification decoder, run against the operations `encode_symbol` queues, asks for exactly the same
+    probability contexts in the same order (otherwise `runOps` is `none`) and returns the symbol and the same state/reps.
+    Covers literal / matched literal (all 8 steps of the offset logic), match (length low/mid/high, distance slot, reverse
+    bittree footer, direct bits + align; every distance < 2^32 incl. the end marker), rep0..rep3, short rep. -/
+theorem symbol_roundtrip (p : Props) (s : SymSt) (pos prev mb : Nat) (sym : Sym) (hv : ValidSym sym) (rest : List Op) :
+    (decodeSym p s pos prev mb).runOps ((symOps p s pos prev mb sym).1 ++ rest)
+      = some ((sym, (symOps p s pos prev mb sym).2), rest) :=
+  decodeSym_ops p s pos prev mb sym hv rest
+
+/-- Symbol sequences: decoding the operations of a valid sequence followed by the end marker gives the expanded window
+    and consumes exactly those operations. -/
+theorem symbols_roundtrip (p : Props) (dictSize : Nat) (hd : dictSize ≤ 4294967295) (syms : List Sym) (pos : Nat) (s : SymSt)
+    (rb : List UInt8) (ops : List Op) (pos' : Nat) (s' : SymSt) (rb' : List UInt8) (rest : List Op)
+    (h : encSyms p dictSize syms pos s rb = some (ops, pos', s', rb')) :
+    (decLoop p dictSize (syms.length + 1) pos s rb).runOps (ops ++ eopmOps p s' pos' ++ rest) = some (rb', rest) :=
+  decLoop_ops p dictSize hd syms (syms.length + 1) pos s rb ops pos' s' rb' rest h (by omega)
+
+/-- LZMA1 (raw stream with end marker, also the payload of .lzma): for every lc/lp/pb accepted by `is_lclppb_valid`, every
+    dictionary size, every history (preset dictionary) and EVERY valid description `syms` of `data` — whatever the parser
+    chose — the bytes of symbol coder + C-style range encoder start with 0x00 and are decoded by the specification decoder
+    (grammar of lzma_decoder.c over the range decoder cores of the decoder model) to exactly `data`, with a finished range
+    decoder and the following bytes untouched. -/
+theorem lzma1_roundtrip (p : Props) (hp : PropsOk p) (dictSize : Nat) (hd : dictSize ≤ 4294967295)
+    (hist data : List UInt8) (syms : List Sym) (hdesc : Describes dictSize hist {} syms data) :
+    ∃ bytes, lzma1EncodeSpec p dictSize hist syms = some bytes ∧ bytes.head? = some 0 ∧
+      ∀ tail, lzma1DecodeSpec p dictSize hist (syms.length + 1) (bytes ++ tail) = some (data, tail) :=
+  lzma1_spec_roundtrip p hp dictSize hd hist data syms hdesc
+
+/-- LZMA2, the chunk step (`lzma2_roundtrip_partial`): a chunk's payload (fresh range coder, NO end marker), coded from ANY
+    shared probabilities / state / window — so also after chunks without state reset — is decoded by size to the same
+    window, and both sides end with the same probabilities, position, state and rep registers, ready for the next chunk. -/
+theorem lzma2_chunk_roundtrip (p : Props) (hp : PropsOk p) (dictSize : Nat) (hd : dictSize ≤ 4294967295)
+    (ps : Probs) (hps : PsOk p ps) (syms : List Sym) (pos : Nat) (s : SymSt) (hs : s.state < 12) (rb rb' : List UInt8)
+    (hexp : lzExpand dictSize syms s rb = some rb') :
+    ∃ ops pos' s', encSyms p dictSize syms pos s rb = some (ops, pos', s', rb') ∧ s'.state < 12 ∧
+      PsOk p (encOps ps Enc.init ops).1 ∧
+      ((encFlush (encOps ps Enc.init ops).2).out).head? = some 0 ∧
+      ∀ tail, ∃ rc rest rc' rest' rc'',
+        readInit ((encFlush (encOps ps Enc.init ops).2).out ++ tail) = .ok rc rest ∧
+        (decBytes p dictSize (syms.length + 1) (symsLen syms) pos s rb).runRc ps rc rest
+          = some ((pos', s', rb'), (encOps ps Enc.init ops).1, rc', rest') ∧
+        normalizeL rc' rest' = some (rc'', tail) ∧ rc''.code = 0 :=
+  lzma_chunk_roundtrip p hp dictSize hd ps hps syms pos s hs rb rb' hexp
+
+/-- Full-strength LZMA2 statement, NOT proved: the executable chunker of `Model/Lzma2Enc.lean` (headers, chunk limits,
+    uncompressed fallback, need_properties / need_state_reset / need_dictionary_reset, end marker) composed with the
+    executable LZMA2 decoder model of `Model/Lzma2.lean`. Missing: (1) refinement of the executable (ByteArray/trace) encoder
+    to `encSyms`; (2) the header/control-byte bookkeeping on both sides; (3) the link between the decoder model
+    (`Lzma.decodeSymbol`, dictionary positions, limits) and `decodeSym`/`decBytes`, incl. the position-relabelling
+    symmetry after uncompressed chunks and preset dictionaries. Every run of the check tests this statement on all traced
+    cases (driver ops `lzma2` + `dec2`). -/
+def lzma2_roundtrip_statement : Prop :=
+  ∀ (p : Props) (dictSize : Nat) (preset data : ByteArray) (trace : Array TraceRec) (res : EncResult),
+    PropsOk p → 4096 ≤ dictSize → dictSize ≤ 1610612736 →
+    lzma2Encode p dictSize (preset ++ data) preset.size trace = .ok res →
+    Lzma2.lzma2Decode dictSize res.out preset.toList =
+      { ret := .streamEnd, out := data.toList, consumed := res.out.length }
+
+/-- NOT proved: the executable LZMA1 encoder model (incl. MicroLZMA output limiting) computes the specification encoder on
+    the symbols of the trace. Tested by the driver op `spec1` on every small traced case. -/
+def lzma1_model_refines_spec_statement : Prop :=
+  ∀ (p : Props) (dictSize : Nat) (preset data : ByteArray) (trace : Array TraceRec) (res : EncResult),
+    lzma1Encode p dictSize true 0 (preset ++ data) preset.size trace = .ok res →
+    ∃ syms, Describes dictSize preset.toList {} syms data.toList ∧
+      lzma1EncodeSpec p dictSize preset.toList syms = some res.out
+
+/-- NOT proved (stated for MicroLZMA): with an output limit the model keeps a prefix of the symbols whose coded size, incl.
+    the flush, is within the limit, and reports the number of bytes they cover. Tested against the C encoder exactly
+    (bytes, consumed count, and the decision of `rc_encode_dummy` for every symbol). -/
+def outlimit_prefix_statement : Prop :=
+  ∀ (p : Props) (dictSize limit : Nat) (preset data : ByteArray) (trace : Array TraceRec) (res : EncResult),
+    6 ≤ limit → lzma1Encode p dictSize false limit (preset ++ data) preset.size trace = .ok res →
+    res.out.length ≤ limit ∧ res.consumed ≤ data.size
+
+/-! ### match-finder position arithmetic (lz_encoder_mf.c `normalize`, lz_encoder.c `move_window`) -/
+
+/-- `normalize()` runs at `pos = UINT32_MAX`. Entries within the cyclic window keep their distance to the new position
+    (`cyclic_size`), older entries become EMPTY, the new `offset` gives the new position, and EMPTY (0) is never a usable
+    candidate at any position ≥ `cyclic_size` (positions start at `cyclic_size` and restart there after `normalize`). -/
+theorem mf_normalize_sound (c h readPos offset : Nat) (hc1 : 0 < c) (hc2 : c < 2147483648)
+    (hh : h < MUST_NORMALIZE_POS) (hr : readPos < MfPos.U32) (ho : offset < MfPos.U32)
+    (hpos : posOf readPos offset = MUST_NORMALIZE_POS) :
+    posOf readPos (normOffset c offset) = c ∧
+    (MUST_NORMALIZE_POS - h < c → normEntry c h ≠ EMPTY_HASH_VALUE ∧ c - normEntry c h = MUST_NORMALIZE_POS - h
+                                    ∧ usable c c (normEntry c h) = true) ∧
+    (c ≤ MUST_NORMALIZE_POS - h → normEntry c h = EMPTY_HASH_VALUE) ∧
+    (∀ pos, c ≤ pos → pos < MfPos.U32 → usable c pos EMPTY_HASH_VALUE = false) := by
+  unfold posOf at hpos
+  refine ⟨?_, ?_, ?_, ?_⟩
+  · simp only [posOf, normOffset, subvalue, MfPos.U32, MUST_NORMALIZE_POS] at *; omega
+  · intro hd
+    simp only [normEntry, subvalue, usable, MfPos.U32, MUST_NORMALIZE_POS, EMPTY_HASH_VALUE] at *
+    have : ¬ h ≤ 4294967295 - c := by omega
+    simp only [this, if_false]
+    refine ⟨by omega, by omega, ?_⟩
+    simp only [decide_eq_true_eq]; omega
+  · intro hd
+    simp only [normEntry, subvalue, MfPos.U32, MUST_NORMALIZE_POS, EMPTY_HASH_VALUE] at *
+    have : h ≤ 4294967295 - c := by omega
+    simp [this]
+  · intro pos hp1 hp2
+    simp only [usable, MfPos.U32, EMPTY_HASH_VALUE, decide_eq_false_iff_not] at *; omega
+
+/-- `move_window` keeps `keep_size_before` bytes of history, moves by a multiple of 16 and leaves `read_pos + offset`
+    (all match-finder positions) unchanged. -/
+theorem mf_window_sound (readPos keepBefore offset : Nat) (h : keepBefore < readPos) :
+    let mo := moveOffset readPos keepBefore
+    mo % 16 = 0 ∧ mo ≤ readPos - keepBefore ∧ keepBefore ≤ readPos - mo ∧ (readPos - mo) + (offset + mo) = readPos + offset := by
+  simp only [moveOffset]; omega
+
 /-! non-vacuity: a concrete op list with repeated contexts (adaptation), direct bits, and a carry-prone run of 1-bits -/
 
 def exOps : List Op :=
@@ -128,5 +252,15 @@ example : (rcEncode exProbs exOps).1 = [0, 218, 223, 251, 255, 120, 65, 0, 0] :=
 
 example : rcDecode exProbs (exOps.map Op.shape) ((rcEncode exProbs exOps).1 ++ [1, 2, 3])
     = some (exOps.map Op.value, (rcEncode exProbs exOps).2, [1, 2, 3]) := by decide +kernel
+
+
+/-- a concrete description of "abcabcabcXabXabX": literals a b c, match dist 2 len 6, literal X, match dist 3 len 2, rep1, short rep -/
+def exSyms : List Sym := [.lit 97, .lit 98, .lit 99, .mtch 2 6, .lit 88, .mtch 3 2, .rep 1 3, .shortrep]
+
+example : Describes 4096 [] {} exSyms [97, 98, 99, 97, 98, 99, 97, 98, 99, 88, 97, 98, 88, 97, 98, 88] := by
+  show lzExpand 4096 exSyms {} _ = some _
+  decide +kernel
+
+example : PropsOk { lc := 3, lp := 0, pb := 2 } := by unfold PropsOk; decide
 
 end XzVerif.C01
